@@ -436,13 +436,13 @@ Theorem copy_zeros_chunk_independent : forall fuel fuel1 n b o,
   pos (final r) = pos b + n.
 Proof.
   intros fuel fuel1 n b o Hf Hf1. cbn zeta. unfold copy_zeros.
-  assert (Hl : lenN (repeatN (0:byte) n) = n) by apply lenN_repeatN.
-  destruct (write_all_chunk_independent fuel fuel1 (repeatN 0 n) b o)
-    as (R & R1 & F & S & D & P); try (rewrite Hl; assumption).
+  pose proof (write_all_chunk_independent fuel fuel1 (repeatN 0 n) b o) as W.
+  cbn zeta in W. rewrite !lenN_repeatN in W.
+  destruct (W Hf Hf1) as (R & R1 & F & Sp & D & P).
   repeat split; try assumption.
-  - intro Hn. apply D. intro E. rewrite E in Hl. cbn [lenN] in Hl. blia.
-  - intro Hn. rewrite S. unfold write_all_spec. rewrite Hl. subst n. reflexivity.
-  - rewrite P, Hl. reflexivity.
+  - intro Hn. apply D. intro E.
+    pose proof (lenN_repeatN N 0 n) as Hl. rewrite E in Hl. cbn [lenN] in Hl. blia.
+  - intro Hn. rewrite Sp. unfold write_all_spec. rewrite lenN_repeatN. subst n. reflexivity.
 Qed.
 
 (* ------------------------------------------------------------------ *)
@@ -477,3 +477,575 @@ Theorem write_all_at_correct : forall fuel p bs b o,
   result (write_all_at fuel p bs b o) = Ok tt /\
   final (write_all_at fuel p bs b o) = write_all_spec bs {| data := data b; pos := p |}.
 Proof. intros. apply write_all_spec_ok. assumption. Qed.
+
+(* ------------------------------------------------------------------ *)
+(* 4. chains: sector arithmetic                                        *)
+(* ------------------------------------------------------------------ *)
+
+Lemma div_mod_shift : forall sl ofs, 0 < sl -> sl <= ofs ->
+  ofs / sl = N.succ ((ofs - sl) / sl) /\ ofs mod sl = (ofs - sl) mod sl.
+Proof.
+  intros sl ofs Hsl H. remember (ofs - sl) as r eqn:Er.
+  assert (E : ofs = r + 1 * sl) by lia. rewrite E.
+  rewrite N.div_add, N.mod_add by lia. split; lia.
+Qed.
+
+Lemma same_sector : forall sl ofs j, 0 < sl -> ofs mod sl + j < sl ->
+  (ofs + j) / sl = ofs / sl /\ (ofs + j) mod sl = ofs mod sl + j.
+Proof.
+  intros sl ofs j Hsl Hj.
+  assert (E2 : ofs + j = sl * (ofs / sl) + (ofs mod sl + j)).
+  { rewrite N.add_assoc. rewrite <- N.div_mod by lia. reflexivity. }
+  split; symmetry.
+  - apply (N.div_unique (ofs + j) sl (ofs / sl) (ofs mod sl + j)); assumption.
+  - apply (N.mod_unique (ofs + j) sl (ofs / sl) (ofs mod sl + j)); assumption.
+Qed.
+
+Lemma nthN_cons_succ : forall A (x : A) l i, nthN (x :: l) (N.succ i) = nthN l i.
+Proof.
+  intros. cbn [nthN]. destruct (N.succ i =? 0) eqn:E; [lia|].
+  rewrite N.pred_succ. reflexivity.
+Qed.
+
+Lemma nthN_lt : forall A (l : list A) i, i < lenN l -> exists x, nthN l i = Some x.
+Proof.
+  intros A l. induction l as [|x l IH]; intros i H; cbn [lenN] in H; [lia|].
+  destruct (N.eq_dec i 0) as [E|E].
+  - subst. exists x. reflexivity.
+  - replace i with (N.succ (N.pred i)) by lia. rewrite nthN_cons_succ. apply IH. lia.
+Qed.
+
+Lemma chain_index_lt : forall sl n ofs, 0 < sl -> ofs < sl * n -> ofs / sl < n.
+Proof. intros. apply N.div_lt_upper_bound; [lia | assumption]. Qed.
+
+Lemma mod_lt : forall sl ofs, 0 < sl -> ofs mod sl < sl.
+Proof. intros. apply N.mod_lt. lia. Qed.
+
+Lemma chain_contents_cons : forall d s tl sl,
+  chain_contents d (s :: tl) sl = takeN sl (dropN s d) ++ chain_contents d tl sl.
+Proof. reflexivity. Qed.
+
+Lemma lenN_chain_contents : forall d sl secs,
+  all_in_bounds d secs sl -> lenN (chain_contents d secs sl) = sl * lenN secs.
+Proof.
+  intros d sl secs H. induction H as [|s tl Hs Htl IH].
+  - cbn [chain_contents flat_map lenN]. lia.
+  - rewrite chain_contents_cons, lenN_app, IH, lenN_takeN, lenN_dropN.
+    cbn [lenN]. rewrite N.mul_succ_r. blia.
+Qed.
+
+(* the bytes at absolute offset sector_start + within ARE the bytes at
+   logical offset ofs, as long as we stay inside the sector *)
+Lemma chain_locate : forall d sl, 0 < sl -> forall secs ofs,
+  all_in_bounds d secs sl -> ofs < sl * lenN secs ->
+  exists s, nthN secs (ofs / sl) = Some s /\ s + sl <= lenN d /\
+    forall k, k <= sl - ofs mod sl ->
+      takeN k (dropN (s + ofs mod sl) d) =
+      takeN k (dropN ofs (chain_contents d secs sl)).
+Proof.
+  intros d sl Hsl secs. induction secs as [|s0 tl IH]; intros ofs Hb Hofs.
+  - cbn [lenN] in Hofs. lia.
+  - inversion Hb as [|? ? Hs0 Htl]; subst.
+    rewrite chain_contents_cons.
+    assert (Hlen0 : lenN (takeN sl (dropN s0 d)) = sl)
+      by (rewrite lenN_takeN, lenN_dropN; blia).
+    destruct (N.lt_ge_cases ofs sl) as [Hlt|Hge].
+    + rewrite N.div_small, N.mod_small by assumption.
+      exists s0. split; [reflexivity|]. split; [assumption|].
+      intros k Hk.
+      rewrite dropN_app_le by blia.
+      rewrite takeN_app_le by (rewrite lenN_dropN; blia).
+      rewrite dropN_takeN, takeN_takeN, dropN_dropN.
+      replace (N.min k (sl - ofs)) with k by blia. reflexivity.
+    + destruct (div_mod_shift sl ofs Hsl Hge) as [Hd Hm]. rewrite Hd, Hm.
+      rewrite nthN_cons_succ.
+      cbn [lenN] in Hofs. rewrite N.mul_succ_r in Hofs.
+      destruct (IH (ofs - sl) Htl) as (s & Hn & Hsb & Hk); [lia|].
+      exists s. split; [assumption|]. split; [assumption|].
+      intros k Hk'. rewrite (Hk k Hk').
+      rewrite dropN_app_ge by blia. rewrite Hlen0. reflexivity.
+Qed.
+
+Lemma backend_eq : forall x y : backend, data x = data y -> pos x = pos y -> x = y.
+Proof. intros [dx px] [dy py]; cbn [data pos]; intros; subst; reflexivity. Qed.
+
+(* ------------------------------------------------------------------ *)
+(* 4a. Chain::read + read_exact                                        *)
+(* ------------------------------------------------------------------ *)
+
+Lemma chain_read_loop_spec : forall sl secs d, 0 < sl -> all_in_bounds d secs sl ->
+  forall fuel ofs rem acc b o,
+  data b = d ->
+  ofs + rem <= sl * lenN secs ->
+  rem + count_interrupted o + 1 <= N.of_nat fuel ->
+  let r := chain_read_exact_loop fuel sl secs ofs rem acc b o in
+  result r = Ok (acc ++ takeN rem (dropN ofs (chain_contents d secs sl)), ofs + rem) /\
+  data (final r) = d /\
+  pos (final r) = (if rem =? 0 then pos b else chain_abs secs sl (ofs + rem - 1) + 1).
+Proof.
+  intros sl secs d Hsl Hb.
+  induction fuel as [|f IH]; intros ofs rem acc b o Hd Hrange Hfuel; [lia|].
+  cbn zeta. cbn [chain_read_exact_loop].
+  destruct (rem =? 0) eqn:Erem.
+  - apply N.eqb_eq in Erem. subst rem. cbn [result final].
+    rewrite takeN_0, app_nil_r, N.add_0_r. auto.
+  - apply N.eqb_neq in Erem.
+    destruct (N.min rem (sl * lenN secs - ofs) =? 0) eqn:Eml;
+      [apply N.eqb_eq in Eml; lia|]. apply N.eqb_neq in Eml.
+    destruct (chain_locate d sl Hsl secs ofs Hb) as (s & Hn & Hsb & Hk); [lia|].
+    rewrite Hn. unfold sector_read. cbn zeta.
+    pose proof (mod_lt sl ofs Hsl) as Hw.
+    set (w := ofs mod sl) in *.
+    set (ml := N.min (N.min rem (sl * lenN secs - ofs)) (sl - w)).
+    destruct (ml =? 0) eqn:Eml2; [apply N.eqb_eq in Eml2; lia|].
+    apply N.eqb_neq in Eml2.
+    unfold raw_read, raw_seek. cbn [data pos]. rewrite Hd.
+    replace (N.min ml (lenN d - (s + w))) with ml by blia.
+    destruct (xfer ml o) as [[k|] o'] eqn:X.
+    + destruct (xfer_some _ _ _ _ X) as (Hk1 & Hk2 & Hci).
+      assert (Hlen : lenN (takeN k (dropN (s + w) d)) = k)
+        by (rewrite lenN_takeN, lenN_dropN; blia).
+      rewrite Hlen.
+      destruct (k =? 0) eqn:Ek; [apply N.eqb_eq in Ek; lia|]. apply N.eqb_neq in Ek.
+      specialize (IH (ofs + k) (rem - k) (acc ++ takeN k (dropN (s + w) d))
+                     {| data := d; pos := s + w + k |} o' eq_refl).
+      cbn zeta in IH. cbn [data pos] in IH.
+      destruct IH as (IH1 & IH2 & IH3); [lia | lia |].
+      split; [|split].
+      * rewrite IH1. rewrite (Hk k) by lia. rewrite <- app_assoc.
+        rewrite <- dropN_dropN, <- takeN_add.
+        replace (k + (rem - k)) with rem by lia.
+        replace (ofs + k + (rem - k)) with (ofs + rem) by lia. reflexivity.
+      * exact IH2.
+      * rewrite IH3. destruct (rem - k =? 0) eqn:Er.
+        -- apply N.eqb_eq in Er. assert (rem = k) by lia. subst rem.
+           unfold chain_abs.
+           replace (ofs + k - 1) with (ofs + (k - 1)) by lia.
+           destruct (same_sector sl ofs (k - 1) Hsl) as [Sd Sm]; [fold w; lia|].
+           rewrite Sd, Sm, Hn. fold w. lia.
+        -- replace (ofs + k + (rem - k) - 1) with (ofs + rem - 1) by lia. reflexivity.
+    + pose proof (xfer_none _ _ _ X) as Hci.
+      specialize (IH ofs rem acc {| data := d; pos := s + w |} o' eq_refl).
+      cbn zeta in IH. cbn [data pos] in IH.
+      destruct IH as (IH1 & IH2 & IH3); [lia | lia |].
+      split; [exact IH1|]. split; [exact IH2|].
+      rewrite IH3. destruct (rem =? 0) eqn:E; [apply N.eqb_eq in E; lia|reflexivity].
+Qed.
+
+Theorem chain_read_exact_correct : forall fuel sl secs ofs n b o,
+  0 < sl -> all_in_bounds (data b) secs sl ->
+  ofs + n <= sl * lenN secs ->
+  n + count_interrupted o + 1 <= N.of_nat fuel ->
+  let r := chain_read_exact fuel sl secs ofs n b o in
+  result r = Ok (chain_bytes (data b) secs sl ofs n, ofs + n) /\
+  data (final r) = data b /\
+  pos (final r) = (if n =? 0 then pos b else chain_abs secs sl (ofs + n - 1) + 1).
+Proof.
+  intros fuel sl secs ofs n b o Hsl Hb Hr Hf. cbn zeta. unfold chain_read_exact, chain_bytes.
+  exact (chain_read_loop_spec sl secs (data b) Hsl Hb fuel ofs n [] b o eq_refl Hr Hf).
+Qed.
+
+Theorem chain_read_exact_chunk_independent : forall fuel fuel1 sl secs ofs n b o,
+  0 < sl -> all_in_bounds (data b) secs sl ->
+  ofs + n <= sl * lenN secs ->
+  n + count_interrupted o + 1 <= N.of_nat fuel ->
+  n + 1 <= N.of_nat fuel1 ->
+  let r := chain_read_exact fuel sl secs ofs n b o in
+  let r1 := chain_read_exact fuel1 sl secs ofs n b [] in
+  result r = Ok (chain_bytes (data b) secs sl ofs n, ofs + n) /\
+  result r1 = Ok (chain_bytes (data b) secs sl ofs n, ofs + n) /\
+  final r = final r1 /\
+  data (final r) = data b.
+Proof.
+  intros fuel fuel1 sl secs ofs n b o Hsl Hb Hr Hf Hf1. cbn zeta.
+  destruct (chain_read_exact_correct fuel sl secs ofs n b o Hsl Hb Hr Hf) as (R & D & P).
+  destruct (chain_read_exact_correct fuel1 sl secs ofs n b [] Hsl Hb Hr) as (R1 & D1 & P1);
+    [cbn [count_interrupted]; lia|].
+  repeat split; try assumption.
+  apply backend_eq; congruence.
+Qed.
+
+(* ------------------------------------------------------------------ *)
+(* 4b. Chain::write + write_all                                        *)
+(* ------------------------------------------------------------------ *)
+
+Lemma chain_splice_nil : forall d secs sl ofs bs,
+  lenN bs = 0 -> chain_splice d secs sl ofs bs = d.
+Proof.
+  intros d [|s tl] sl ofs bs H; cbn [chain_splice]; [reflexivity|].
+  rewrite H. reflexivity.
+Qed.
+
+(* writing a first piece of k bytes (inside the current sector) and then the
+   rest is the same as the one-shot per-sector splices *)
+Lemma chain_splice_step : forall sl, 0 < sl -> forall secs d ofs bs s k,
+  ofs < sl * lenN secs ->
+  nthN secs (ofs / sl) = Some s ->
+  1 <= k -> k <= lenN bs -> k <= sl - ofs mod sl ->
+  chain_splice d secs sl ofs bs =
+  chain_splice (spliceN d (s + ofs mod sl) (takeN k bs)) secs sl (ofs + k) (dropN k bs).
+Proof.
+  intros sl Hsl secs.
+  induction secs as [|s0 tl IH]; intros d ofs bs s k Hofs Hn Hk1 Hk2 Hk3.
+  - cbn [lenN] in Hofs. lia.
+  - cbn [chain_splice].
+    destruct (lenN bs =? 0) eqn:Eb; [apply N.eqb_eq in Eb; lia|]. clear Eb.
+    rewrite lenN_dropN.
+    destruct (ofs <? sl) eqn:Elt.
+    + apply N.ltb_lt in Elt.
+      rewrite N.div_small in Hn by assumption.
+      rewrite N.mod_small in * by assumption.
+      cbn [nthN N.eqb] in Hn. inversion Hn; subst s0. clear Hn.
+      set (K := N.min (lenN bs) (sl - ofs)).
+      destruct (lenN bs - k =? 0) eqn:Ed.
+      * apply N.eqb_eq in Ed. assert (HK : K = k) by lia. rewrite HK.
+        apply chain_splice_nil. rewrite lenN_dropN. lia.
+      * apply N.eqb_neq in Ed.
+        destruct (ofs + k <? sl) eqn:Elt2.
+        -- apply N.ltb_lt in Elt2.
+           assert (Hl : lenN (takeN k bs) = k) by (rewrite lenN_takeN; lia).
+           replace (s + (ofs + k)) with (s + ofs + lenN (takeN k bs)) by lia.
+           rewrite spliceN_spliceN. rewrite dropN_dropN. rewrite <- takeN_add.
+           replace (k + N.min (lenN bs - k) (sl - (ofs + k))) with K by lia.
+           reflexivity.
+        -- apply N.ltb_ge in Elt2. assert (HK : K = k) by lia. rewrite HK.
+           replace (ofs + k - sl) with 0 by lia. reflexivity.
+    + apply N.ltb_ge in Elt.
+      destruct (div_mod_shift sl ofs Hsl Elt) as [Hd Hm].
+      rewrite Hd in Hn. rewrite nthN_cons_succ in Hn. rewrite Hm in *.
+      cbn [lenN] in Hofs. rewrite N.mul_succ_r in Hofs.
+      rewrite (IH d (ofs - sl) bs s k) by (assumption || lia).
+      destruct (lenN bs - k =? 0) eqn:Ed.
+      * apply N.eqb_eq in Ed. apply chain_splice_nil. rewrite lenN_dropN. lia.
+      * replace (ofs + k <? sl) with false by (symmetry; apply N.ltb_ge; lia).
+        replace (ofs - sl + k) with (ofs + k - sl) by lia. reflexivity.
+Qed.
+
+Lemma chain_write_loop_spec : forall sl secs, 0 < sl ->
+  forall fuel ofs bs b o,
+  ofs + lenN bs <= sl * lenN secs ->
+  lenN bs + count_interrupted o + 1 <= N.of_nat fuel ->
+  let r := chain_write_all_loop fuel sl secs ofs bs b o in
+  result r = Ok (ofs + lenN bs) /\
+  data (final r) = chain_splice (data b) secs sl ofs bs /\
+  pos (final r) =
+    (if lenN bs =? 0 then pos b else chain_abs secs sl (ofs + lenN bs - 1) + 1).
+Proof.
+  intros sl secs Hsl.
+  induction fuel as [|f IH]; intros ofs bs b o Hrange Hfuel; [lia|].
+  cbn zeta. cbn [chain_write_all_loop].
+  destruct (lenN bs =? 0) eqn:Ebs.
+  - apply N.eqb_eq in Ebs. cbn [result final]. rewrite Ebs, N.add_0_r.
+    rewrite chain_splice_nil by assumption. auto.
+  - apply N.eqb_neq in Ebs.
+    destruct (sl * lenN secs <=? ofs) eqn:Eend; [apply N.leb_le in Eend; lia|].
+    apply N.leb_gt in Eend.
+    destruct (nthN_lt _ secs (ofs / sl)) as [s Hn];
+      [apply chain_index_lt; assumption|].
+    rewrite Hn. unfold sector_write. cbn zeta.
+    pose proof (mod_lt sl ofs Hsl) as Hw.
+    set (w := ofs mod sl) in *.
+    set (ml := N.min (lenN bs) (sl - w)).
+    destruct (ml =? 0) eqn:Eml; [apply N.eqb_eq in Eml; lia|].
+    apply N.eqb_neq in Eml.
+    unfold raw_write, raw_seek. cbn [data pos].
+    replace (lenN (takeN ml bs)) with ml by (rewrite lenN_takeN; lia).
+    destruct (xfer ml o) as [[k|] o'] eqn:X.
+    + destruct (xfer_some _ _ _ _ X) as (Hk1 & Hk2 & Hci).
+      destruct (k =? 0) eqn:Ek; [apply N.eqb_eq in Ek; lia|]. apply N.eqb_neq in Ek.
+      rewrite takeN_takeN. replace (N.min k ml) with k by lia.
+      specialize (IH (ofs + k) (dropN k bs)
+                     {| data := spliceN (data b) (s + w) (takeN k bs); pos := s + w + k |} o').
+      cbn zeta in IH. cbn [data pos] in IH. rewrite lenN_dropN in IH.
+      destruct IH as (IH1 & IH2 & IH3); [lia | lia |].
+      split; [|split].
+      * rewrite IH1. f_equal. lia.
+      * rewrite IH2. symmetry. apply chain_splice_step; try assumption; lia.
+      * rewrite IH3. destruct (lenN bs - k =? 0) eqn:Er.
+        -- apply N.eqb_eq in Er. assert (Hkl : lenN bs = k) by lia. rewrite Hkl.
+           unfold chain_abs.
+           replace (ofs + k - 1) with (ofs + (k - 1)) by lia.
+           destruct (same_sector sl ofs (k - 1) Hsl) as [Sd Sm]; [fold w; lia|].
+           rewrite Sd, Sm, Hn. fold w. lia.
+        -- apply N.eqb_neq in Er.
+           replace (ofs + k + (lenN bs - k) - 1) with (ofs + lenN bs - 1) by lia.
+           reflexivity.
+    + pose proof (xfer_none _ _ _ X) as Hci.
+      specialize (IH ofs bs {| data := data b; pos := s + w |} o').
+      cbn zeta in IH. cbn [data pos] in IH.
+      destruct IH as (IH1 & IH2 & IH3); [lia | lia |].
+      split; [exact IH1|]. split; [exact IH2|].
+      rewrite IH3. destruct (lenN bs =? 0) eqn:E; [apply N.eqb_eq in E; lia|reflexivity].
+Qed.
+
+Theorem chain_write_all_correct : forall fuel sl secs ofs bs b o,
+  0 < sl ->
+  ofs + lenN bs <= sl * lenN secs ->
+  lenN bs + count_interrupted o + 1 <= N.of_nat fuel ->
+  let r := chain_write_all fuel sl secs ofs bs b o in
+  result r = Ok (ofs + lenN bs) /\
+  data (final r) = chain_splice (data b) secs sl ofs bs /\
+  pos (final r) =
+    (if lenN bs =? 0 then pos b else chain_abs secs sl (ofs + lenN bs - 1) + 1).
+Proof.
+  intros fuel sl secs ofs bs b o Hsl Hr Hf.
+  exact (chain_write_loop_spec sl secs Hsl fuel ofs bs b o Hr Hf).
+Qed.
+
+Theorem chain_write_all_chunk_independent : forall fuel fuel1 sl secs ofs bs b o,
+  0 < sl ->
+  ofs + lenN bs <= sl * lenN secs ->
+  lenN bs + count_interrupted o + 1 <= N.of_nat fuel ->
+  lenN bs + 1 <= N.of_nat fuel1 ->
+  let r := chain_write_all fuel sl secs ofs bs b o in
+  let r1 := chain_write_all fuel1 sl secs ofs bs b [] in
+  result r = Ok (ofs + lenN bs) /\
+  result r1 = Ok (ofs + lenN bs) /\
+  final r = final r1 /\
+  data (final r) = chain_splice (data b) secs sl ofs bs.
+Proof.
+  intros fuel fuel1 sl secs ofs bs b o Hsl Hr Hf Hf1. cbn zeta.
+  destruct (chain_write_all_correct fuel sl secs ofs bs b o Hsl Hr Hf) as (R & D & P).
+  destruct (chain_write_all_correct fuel1 sl secs ofs bs b [] Hsl Hr) as (R1 & D1 & P1);
+    [cbn [count_interrupted]; lia|].
+  repeat split; try assumption.
+  apply backend_eq; congruence.
+Qed.
+
+(* ------------------------------------------------------------------ *)
+(* 5b. chain accesses seek before every raw call                       *)
+(* ------------------------------------------------------------------ *)
+
+Lemma sector_read_seek : forall sl s w n b b' o,
+  data b = data b' -> sector_read sl s w n b o = sector_read sl s w n b' o.
+Proof.
+  intros sl s w n b b' o H. unfold sector_read, raw_read, raw_seek.
+  cbn [data pos]. rewrite H. reflexivity.
+Qed.
+
+Lemma sector_write_seek : forall sl s w bs b b' o,
+  data b = data b' -> sector_write sl s w bs b o = sector_write sl s w bs b' o.
+Proof.
+  intros sl s w bs b b' o H. unfold sector_write, raw_write, raw_seek.
+  cbn [data pos]. rewrite H. reflexivity.
+Qed.
+
+(* Two backends holding the same file but with different cursors: the chain
+   read gives the same result, the same file, consumes the same choices and,
+   unless it returned before making any raw call (then the backend is
+   returned untouched), leaves the same cursor.  No side conditions. *)
+Theorem seek_first_chain_read : forall fuel sl secs ofs n b b' o,
+  data b = data b' ->
+  let r := chain_read_exact fuel sl secs ofs n b o in
+  let r' := chain_read_exact fuel sl secs ofs n b' o in
+  result r = result r' /\ data (final r) = data (final r') /\ rest r = rest r' /\
+  (final r = final r' \/ final r = b /\ final r' = b').
+Proof.
+  intros fuel sl secs ofs n b b' o H. cbn zeta. unfold chain_read_exact.
+  destruct fuel as [|f]; cbn [chain_read_exact_loop].
+  - cbn [result final rest]. auto 6.
+  - destruct (n =? 0); [cbn [result final rest]; auto 6|].
+    destruct (N.min n (sl * lenN secs - ofs) =? 0); [cbn [result final rest]; auto 6|].
+    destruct (nthN secs (ofs / sl)) as [s|]; [|cbn [result final rest]; auto 6].
+    rewrite (sector_read_seek sl s (ofs mod sl) _ b b' o H). auto 6.
+Qed.
+
+Theorem seek_first_chain_write : forall fuel sl secs ofs bs b b' o,
+  data b = data b' ->
+  let r := chain_write_all fuel sl secs ofs bs b o in
+  let r' := chain_write_all fuel sl secs ofs bs b' o in
+  result r = result r' /\ data (final r) = data (final r') /\ rest r = rest r' /\
+  (final r = final r' \/ final r = b /\ final r' = b').
+Proof.
+  intros fuel sl secs ofs bs b b' o H. cbn zeta. unfold chain_write_all.
+  destruct fuel as [|f]; cbn [chain_write_all_loop].
+  - cbn [result final rest]. auto 6.
+  - destruct (lenN bs =? 0); [cbn [result final rest]; auto 6|].
+    destruct (sl * lenN secs <=? ofs); [cbn [result final rest]; auto 6|].
+    destruct (nthN secs (ofs / sl)) as [s|]; [|cbn [result final rest]; auto 6].
+    rewrite (sector_write_seek sl s (ofs mod sl) bs b b' o H). auto 6.
+Qed.
+
+(* the p / p' form *)
+Corollary seek_first_chain_read_pos : forall fuel sl secs ofs n d p p' o,
+  let r := chain_read_exact fuel sl secs ofs n {| data := d; pos := p |} o in
+  let r' := chain_read_exact fuel sl secs ofs n {| data := d; pos := p' |} o in
+  result r = result r' /\ data (final r) = data (final r') /\ rest r = rest r'.
+Proof.
+  intros. destruct (seek_first_chain_read fuel sl secs ofs n
+    {| data := d; pos := p |} {| data := d; pos := p' |} o eq_refl) as (A & B & C & _).
+  auto.
+Qed.
+
+Corollary seek_first_chain_write_pos : forall fuel sl secs ofs bs d p p' o,
+  let r := chain_write_all fuel sl secs ofs bs {| data := d; pos := p |} o in
+  let r' := chain_write_all fuel sl secs ofs bs {| data := d; pos := p' |} o in
+  result r = result r' /\ data (final r) = data (final r') /\ rest r = rest r'.
+Proof.
+  intros. destruct (seek_first_chain_write fuel sl secs ofs bs
+    {| data := d; pos := p |} {| data := d; pos := p' |} o eq_refl) as (A & B & C & _).
+  auto.
+Qed.
+
+(* ------------------------------------------------------------------ *)
+(* 3b. io::copy chunk by chunk = one write_all of n zeros              *)
+(* ------------------------------------------------------------------ *)
+
+Lemma write_all_rest : forall fuel bs b o,
+  count_interrupted (rest (write_all fuel bs b o)) <= count_interrupted o.
+Proof.
+  induction fuel as [|f IH]; intros bs b o; cbn [write_all].
+  - cbn [rest]. lia.
+  - destruct (lenN bs =? 0); [cbn [rest]; lia|].
+    unfold raw_write.
+    destruct (xfer (lenN bs) o) as [[k|] o'] eqn:X.
+    + destruct (xfer_some _ _ _ _ X) as (_ & _ & Hci).
+      destruct (k =? 0); [cbn [rest]; lia|].
+      etransitivity; [apply IH | exact Hci].
+    + pose proof (xfer_none _ _ _ X) as Hci.
+      etransitivity; [apply IH | lia].
+Qed.
+
+Theorem copy_zeros_chunked_correct : forall cfuel wfuel n b o,
+  n + 1 <= N.of_nat cfuel ->
+  copy_buf_len + count_interrupted o + 1 <= N.of_nat wfuel ->
+  result (copy_zeros_chunked cfuel wfuel n b o) = Ok tt /\
+  final (copy_zeros_chunked cfuel wfuel n b o) = write_all_spec (repeatN 0 n) b.
+Proof.
+  assert (Hpos : 0 < copy_buf_len) by (unfold copy_buf_len; lia).
+  induction cfuel as [|f IH]; intros wfuel n b o Hc Hw; [lia|].
+  cbn [copy_zeros_chunked].
+  destruct (n =? 0) eqn:En.
+  - apply N.eqb_eq in En. subst n. cbn [result final]. auto.
+  - apply N.eqb_neq in En. cbn zeta.
+    set (c := N.min n copy_buf_len).
+    destruct (write_all_spec_ok wfuel (repeatN 0 c) b o) as [R F];
+      [rewrite lenN_repeatN; lia|].
+    pose proof (write_all_rest wfuel (repeatN 0 c) b o) as Hrest.
+    rewrite R.
+    destruct (IH wfuel (n - c) (final (write_all wfuel (repeatN 0 c) b o))
+                 (rest (write_all wfuel (repeatN 0 c) b o))) as [R2 F2]; [lia|lia|].
+    split; [exact R2|]. rewrite F2, F. unfold write_all_spec.
+    rewrite !lenN_repeatN.
+    replace (c =? 0) with false by (symmetry; apply N.eqb_neq; lia).
+    replace (n =? 0) with false by (symmetry; apply N.eqb_neq; lia).
+    destruct (n - c =? 0) eqn:Ed.
+    + apply N.eqb_eq in Ed. assert (c = n) by lia. rewrite H. reflexivity.
+    + cbn [data pos].
+      pose proof (lenN_repeatN N 0 c) as Hl. rewrite <- Hl at 2.
+      rewrite spliceN_spliceN, <- repeatN_add.
+      replace (c + (n - c)) with n by lia. f_equal. lia.
+Qed.
+
+(* so the literal chunked loop and the single write_all model agree *)
+Corollary copy_zeros_chunked_eq : forall cfuel wfuel fuel n b o o1,
+  n + 1 <= N.of_nat cfuel ->
+  copy_buf_len + count_interrupted o + 1 <= N.of_nat wfuel ->
+  n + count_interrupted o1 + 1 <= N.of_nat fuel ->
+  result (copy_zeros_chunked cfuel wfuel n b o) = result (copy_zeros fuel n b o1) /\
+  final (copy_zeros_chunked cfuel wfuel n b o) = final (copy_zeros fuel n b o1).
+Proof.
+  intros cfuel wfuel fuel n b o o1 Hc Hw Hf.
+  destruct (copy_zeros_chunked_correct cfuel wfuel n b o Hc Hw) as [R F].
+  destruct (write_all_spec_ok fuel (repeatN 0 n) b o1) as [R1 F1];
+    [rewrite lenN_repeatN; exact Hf|].
+  unfold copy_zeros. rewrite R, F, R1, F1. auto.
+Qed.
+
+(* ------------------------------------------------------------------ *)
+(* 6. non-vacuity: concrete runs                                       *)
+(* ------------------------------------------------------------------ *)
+
+Definition ex_data : list byte := map N.of_nat (seq 0 48).   (* byte i = i *)
+Definition ex_b : backend := {| data := ex_data; pos := 5 |}.
+Definition ex_secs : list N := [32; 8; 24].                  (* out of order on purpose *)
+Definition ex_oracle : oracle :=
+  [Short 1; Interrupted; Short 7; Interrupted; Interrupted; Short 0; Short 3; Short 100].
+
+(* 18 bytes from logical offset 3 of a 3-sector chain, sector length 8:
+   crosses both sector boundaries *)
+Example ex_chain_read_chunked :
+  let r := chain_read_exact 40 8 ex_secs 3 18 ex_b ex_oracle in
+  result r = Ok ([35;36;37;38;39; 8;9;10;11;12;13;14;15; 24;25;26;27;28], 21)
+  /\ final r = {| data := ex_data; pos := 29 |} /\ rest r = [].
+Proof. vm_compute. auto. Qed.
+
+Example ex_chain_read_oneshot_equal :
+  let r := chain_read_exact 40 8 ex_secs 3 18 ex_b ex_oracle in
+  let r1 := chain_read_exact 19 8 ex_secs 3 18 ex_b [] in
+  result r = result r1 /\ final r = final r1
+  /\ result r1 = Ok (chain_bytes ex_data ex_secs 8 3 18, 21).
+Proof. vm_compute. auto. Qed.
+
+(* the oracle really splits the transfer: one fuel unit fewer than the
+   chunked run needs is not enough, although it is plenty for the one-shot *)
+Example ex_chain_read_needs_fuel :
+  result (chain_read_exact 9 8 ex_secs 3 18 ex_b ex_oracle) = OutOfFuel /\
+  is_ok (result (chain_read_exact 9 8 ex_secs 3 18 ex_b [])) = true.
+Proof. vm_compute. auto. Qed.
+
+Example ex_chain_write_equal :
+  let bs := [201;202;203;204;205;206;207;208;209;210;211] in
+  let r := chain_write_all 40 8 ex_secs 6 bs ex_b ex_oracle in
+  let r1 := chain_write_all 12 8 ex_secs 6 bs ex_b [] in
+  result r = Ok 17 /\ result r1 = Ok 17 /\ final r = final r1 /\
+  data (final r) = chain_splice ex_data ex_secs 8 6 bs /\
+  takeN 8 (dropN 32 (data (final r))) = [32;33;34;35;36;37;201;202] /\
+  takeN 8 (dropN 8 (data (final r))) = [203;204;205;206;207;208;209;210] /\
+  takeN 8 (dropN 24 (data (final r))) = [211;25;26;27;28;29;30;31] /\
+  pos (final r) = 25.
+Proof. vm_compute. repeat split; reflexivity. Qed.
+
+Example ex_read_exact_equal :
+  let r := read_exact_at 40 10 20 ex_b ex_oracle in
+  let r1 := read_exact_at 21 10 20 ex_b [] in
+  result r = result r1 /\ final r = final r1 /\
+  result r = Ok (map N.of_nat (seq 10 20)) /\ pos (final r) = 30.
+Proof. vm_compute. repeat split; reflexivity. Qed.
+
+Example ex_read_exact_eof :
+  let r := read_exact_at 40 40 20 ex_b ex_oracle in
+  let r1 := read_exact_at 21 40 20 ex_b [] in
+  result r = Err EUnexpectedEof /\ result r1 = Err EUnexpectedEof /\
+  final r = final r1 /\ pos (final r) = 48.
+Proof. vm_compute. repeat split; reflexivity. Qed.
+
+(* a write past the end zero-fills the gap, whichever piece arrives first *)
+Example ex_write_all_gap :
+  let r := write_all_at 40 50 [1;2;3;4;5;6;7;8;9;10;11;12] ex_b ex_oracle in
+  let r1 := write_all_at 13 50 [1;2;3;4;5;6;7;8;9;10;11;12] ex_b [] in
+  result r = Ok tt /\ final r = final r1 /\
+  dropN 46 (data (final r)) = [46;47;0;0;1;2;3;4;5;6;7;8;9;10;11;12] /\
+  pos (final r) = 62.
+Proof. vm_compute. repeat split; reflexivity. Qed.
+
+Example ex_copy_zeros_chunked :
+  let r := copy_zeros_chunked 3 (N.to_nat 9000) 10000 {| data := [7;7]; pos := 1 |} [Short 5; Interrupted; Short 8000] in
+  result r = Ok tt /\ lenN (data (final r)) = 10001 /\ pos (final r) = 10001.
+Proof. vm_compute. repeat split; reflexivity. Qed.
+
+(* ------------------------------------------------------------------ *)
+
+Check read_exact_correct.
+Check read_exact_chunk_independent.
+Check write_all_chunk_independent.
+Check copy_zeros_chunk_independent.
+Check copy_zeros_chunked_eq.
+Check chain_read_exact_correct.
+Check chain_read_exact_chunk_independent.
+Check chain_write_all_correct.
+Check chain_write_all_chunk_independent.
+Check seek_first_read_exact.
+Check seek_first_write_all.
+Check seek_first_copy_zeros.
+Check seek_first_chain_read.
+Check seek_first_chain_write.
+
+Print Assumptions read_exact_chunk_independent.
+Print Assumptions write_all_chunk_independent.
+Print Assumptions copy_zeros_chunk_independent.
+Print Assumptions copy_zeros_chunked_eq.
+Print Assumptions chain_read_exact_chunk_independent.
+Print Assumptions chain_write_all_chunk_independent.
+Print Assumptions seek_first_chain_read.
+Print Assumptions seek_first_chain_write.
